@@ -416,6 +416,30 @@ func (t *UpdateTran) fkeyOutputBlock(ts *meta.Schema, i int, rec core.Record) {
 	}
 }
 
+// fkeySelfBlock handles foreign keys to the same table in update.
+// fkeyOutputBlock looks at the table before the update,
+// where the new foreign key value can match the record that is being updated.
+// That is only a match if the update does not change that key.
+func (t *UpdateTran) fkeySelfBlock(ts *meta.Schema, oldoff uint64,
+	oldkeys, newkeys []string, newrec core.Record) {
+	for i := range ts.Indexes {
+		ix := &ts.Indexes[i]
+		fk := ix.Fk
+		if fk.Table != ts.Table || oldkeys[i] == newkeys[i] ||
+			oldkeys[fk.IIndex] == newkeys[fk.IIndex] {
+			continue
+		}
+		key := ix.Ixspec.Trunc(len(fk.Columns)).Key(newrec)
+		if key != "" && key == oldkeys[fk.IIndex] {
+			idx := t.meta.GetRoInfo(ts.Table).Indexes[fk.IIndex]
+			if idx.Lookup(key) == oldoff {
+				panic("update blocked by foreign key: " +
+					fk.Table + " " + ix.String())
+			}
+		}
+	}
+}
+
 func (t *UpdateTran) fkeyOutputExists(table string, iIndex int, key string) bool {
 	t.Read(table, iIndex, key, key)
 	return t.ReadTran.fkeyOutputExists(table, iIndex, key)
@@ -619,6 +643,9 @@ func (t *UpdateTran) update(th *core.Thread, table string, oldoff uint64, newrec
 				t.fkeyOutputBlock(ts, i, newrec)
 			}
 		}
+	}
+	if block {
+		t.fkeySelfBlock(ts, oldoff, oldkeys, newkeys, newrec)
 	}
 	t.ck(t.db.ck.Update(t.ct, table, oldoff, oldkeys, newkeys))
 	ti = t.getRwInfo(table)
